@@ -270,15 +270,79 @@ fn every_character() -> Acc {
             (format!("( -iname {c} )"), "-iname", "member"),
             (format!("-uid 5{c}"), "-uid", "corruption"),
             (format!("-type f{c}"), "-type", "corruption"),
+            (format!("-printf '%{{xattr:a{c}b}}'"), "-printf", "corruption"),
+            (format!("-fprintf f '%{{xattr:{c}}}\\n'"), "-fprintf", "corruption"),
         ] {
             check(&Case { input, kw, family }, acc);
         }
     })
 }
 
+/// The argument values returned must be those of *this* text, whatever the thread parsed before:
+/// texts that differ only inside a quoted argument (amount and kind of blank space, a keyword
+/// spelled inside the quotes), every ordered pair, the second right after the first on a fresh
+/// thread, against the answer on a fresh thread (which `check` compares with the reference).
+fn histories() -> Acc {
+    let inputs: Vec<String> = [
+        "-name \"a b\"",
+        "-name \"a  b\"",
+        "-name \"a\tb\"",
+        "-name \"a\nb\"",
+        "-name 'a b' -print",
+        "-name 'a  b' -print",
+        "-name  'a b'  -print",
+        "-printf \"%p %s\\n\"",
+        "-printf \"%p    %s\\n\"",
+        "-printf '%p\t%s\\n'",
+        "-fprintf 'my file' '%p'",
+        "-fprintf 'my  file' '%p'",
+        "-fprintf 'my file' '%p '",
+        "-fprint 'my file'",
+        "-fprint 'my  file'",
+        "-path 'x , y'",
+        "-path 'x ,  y'",
+        "-name a -name b",
+        "-name 'a -name b'",
+        "-name 'a  -name b'",
+        "-xattr-match 'k v' 'w'",
+        "-xattr-match 'k' 'v w'",
+        "-xattr-match 'k  v' 'w'",
+        "-uid 7",
+        "-uid +7",
+        "-uid  7",
+        "-size 7k",
+        "-size 7M",
+        "-perm 644",
+        "-perm -644",
+        "-perm /644",
+        "-type f,d",
+        "-type d,f",
+        "-type f",
+    ]
+    .iter()
+    .map(|s| s.to_string())
+    .collect();
+    let mut acc = Acc::new();
+    for i in &inputs {
+        check(&Case { input: i.clone(), kw: "history", family: "member" }, &mut acc);
+    }
+    let n = inputs.len() as u64;
+    acc.states += n * n;
+    acc.transitions += 2 * n * n;
+    acc.count("history_pairs", n * n);
+    for (i, j, after, alone) in crate::subject::parse_history_pairs(&inputs) {
+        acc.violate(Violation::new(
+            "C05:argument-values-of-an-earlier-text",
+            format!("parse({:?}) right after parse({:?}) on the same thread answers {after}; on a fresh thread it answers {alone}", inputs[j], inputs[i]),
+            json!({"kind": "history", "first": inputs[i], "second": inputs[j]}),
+        ));
+    }
+    acc
+}
+
 pub fn run(ctx: &Ctx) -> i32 {
     let cases = gen(ctx.tier);
-    let acc = par_items(&cases, check).merge(every_character());
+    let acc = par_items(&cases, check).merge(every_character()).merge(histories());
     let kws: Vec<&Kw> = VOCAB.iter().collect();
     let mut extra = serde_json::Map::new();
     extra.insert("keywords".into(), json!(kws.len()));
@@ -289,7 +353,7 @@ pub fn run(ctx: &Ctx) -> i32 {
             level: "model_checking",
             exhaustive: true,
             rule: "state = input text built from (keyword, argument member | single-character corruption at every position | missing argument | glued suffix | mangled keyword) x embedding context; each is parsed by the real parser and by the text-level reference; distinct = distinct accepted trees and error texts".into(),
-            bound: format!("all {} vocabulary keywords x all members/corruptions of their argument languages x {} contexts; glue matrix keyword x (every vocabulary word + junk suffixes); long members (16..1000 leading zeros / list entries / clauses / characters); every printable character of the Basic Multilingual Plane inside a bare string argument and glued to a numeric / type argument", kws.len(), ctx.tier.pick(3, 5)),
+            bound: format!("all {} vocabulary keywords x all members/corruptions of their argument languages x {} contexts; glue matrix keyword x (every vocabulary word + junk suffixes); long members (16..1000 leading zeros / list entries / clauses / characters); every printable character of the Basic Multilingual Plane inside a bare string argument and glued to a numeric / type argument and inside the NAME of %{{xattr:NAME}}; every ordered pair of 34 texts that differ only inside a quoted argument or in one argument value, parsed back to back on one thread", kws.len(), ctx.tier.pick(3, 5)),
             assumptions: vec![
                 "vocabulary table and argument languages in harness/speclib/src/textspec.rs (from find(1) and the subject's ast.rs doc comments)".into(),
                 "inputs in the unspecified classes of DESIGN.md §2.3 are skipped and counted".into(),
@@ -300,6 +364,13 @@ pub fn run(ctx: &Ctx) -> i32 {
 }
 
 pub fn replay(w: &Value) -> Vec<Violation> {
+    if w["kind"] == "history" {
+        let inputs = vec![w["first"].as_str().unwrap_or("").to_string(), w["second"].as_str().unwrap_or("").to_string()];
+        return crate::subject::parse_history_pairs(&inputs)
+            .into_iter()
+            .map(|(i, j, after, alone)| Violation::new("C05:argument-values-of-an-earlier-text", format!("parse({:?}) after parse({:?}): {after} vs {alone}", inputs[j], inputs[i]), w.clone()))
+            .collect();
+    }
     let case = Case {
         input: w["input"].as_str().unwrap_or("").to_string(),
         kw: Box::leak(w["keyword"].as_str().unwrap_or("?").to_string().into_boxed_str()),
